@@ -7,6 +7,14 @@ DESIGN.md 2.1(B)): gradient / hessian_vec / preconditioner stay genuine.
 import numpy as onp
 
 
+def _fp(p):
+    """content fingerprint of the bc slot of a Params tuple (identifies load steps across JAX re-wrapping)"""
+    try:
+        return onp.asarray(p[0], dtype=onp.float64).tobytes()
+    except Exception:
+        return b""
+
+
 def _key(x):
     return onp.asarray(x, dtype=onp.float64).tobytes()
 
@@ -40,7 +48,7 @@ class ObjectiveProxy:
             object.__setattr__(self, name, val)
         else:
             if name == "p":
-                self._log.append(("set_p", id(val)))
+                self._log.append(("set_p", id(val), _fp(val)))
             setattr(self._real, name, val)
 
     # ---- logged calls
@@ -51,6 +59,8 @@ class ObjectiveProxy:
 
     def hessian_vec(self, x, v):
         r = self._real.hessian_vec(x, v)
+        if not self._log or self._log[-1][0] != "hessian_vec":
+            self._log.append(("hessian_vec", id(self._real.p)))
         self._last_op = "hv"
         self._last_hv = (x, v, r)
         return r
@@ -58,6 +68,22 @@ class ObjectiveProxy:
     def update_precond(self, x):
         self._log.append(("update_precond", id(self._real.p)))
         return self._real.update_precond(x)
+
+    def vec_jacobian_p0(self, x, v):
+        self._log.append(("vec_jac", 0, id(self._real.p), _fp(self._real.p)))
+        return self._real.vec_jacobian_p0(x, v)
+
+    def vec_jacobian_p1(self, x, v):
+        self._log.append(("vec_jac", 1, id(self._real.p), _fp(self._real.p)))
+        return self._real.vec_jacobian_p1(x, v)
+
+    def vec_jacobian_p2(self, x, v):
+        self._log.append(("vec_jac", 2, id(self._real.p), _fp(self._real.p)))
+        return self._real.vec_jacobian_p2(x, v)
+
+    def vec_jacobian_p4(self, x, v):
+        self._log.append(("vec_jac", 4, id(self._real.p), _fp(self._real.p)))
+        return self._real.vec_jacobian_p4(x, v)
 
     def jacobian_p_vec(self, x, vp):
         self._log.append(("jacobian_p_vec", id(self._real.p)))
